@@ -977,7 +977,6 @@ func (p *pp) UnsafeRune(r rune)
   ensures PI(p) && Same(p) && Kept(p)
 
 func (p *pp) Print(args ...interface{})
-  assume [C11] inv(p.buf) at unwind
   requires PI(p) && WP(p.fmt)
   may-panic
   modifies p, alloc, memU, fdp, fdk, fdar, fdao, fdal, fdf, fdfl
@@ -992,7 +991,6 @@ func (p *pp) Print(args ...interface{})
 
 func (p *pp) Printf(format string, arg ...interface{})
   public format
-  assume [C11] inv(p.buf) at unwind
   requires PI(p) && WP(p.fmt)
   may-panic
   modifies p, alloc, memU, fdp, fdk, fdar, fdao, fdal, fdf, fdfl
